@@ -213,9 +213,10 @@ class Effects:
     def __init__(self, cg):
         self.cg = cg
         self.may_raise = cg.reaches(RAISE_SEEDS | {"<unknown>"}, barriers=CATCH_BARRIERS)
-        self.may_run_lpc = cg.reaches(LPC_SEEDS | {"<unknown>"})
-        self.may_destruct = cg.reaches({"destruct_object"} | LPC_SEEDS | {"<unknown>"})
-        self.may_free_ip = cg.reaches({"remove_interactive"} | LPC_SEEDS | {"<unknown>"})
+        # fatal() runs the master's crash() but never returns to its caller
+        self.may_run_lpc = cg.reaches(LPC_SEEDS | {"<unknown>"}, barriers={"fatal"})
+        self.may_destruct = cg.reaches({"destruct_object"} | LPC_SEEDS | {"<unknown>"}, barriers={"fatal"})
+        self.may_free_ip = cg.reaches({"remove_interactive"} | LPC_SEEDS | {"<unknown>"}, barriers={"fatal"})
 
     def call_may_raise(self, f, n):
         return bool(self.cg.callees_of_call(f, n) & self.may_raise)
